@@ -1,5 +1,6 @@
 pub mod capture;
 pub mod driver;
+pub mod fuzzrt;
 pub mod gen20;
 pub mod gen20rt;
 pub mod io;
